@@ -404,6 +404,18 @@ def hunt(job):
     except BaseException:  # noqa
         if state["fail"] is None:
             raise
+    if state["fail"]:
+        sig = state["fail"]["sig"]
+
+        def fails(prog):
+            try:
+                run_program(prog)
+            except Violation as v:
+                return v.sig == sig
+            except Exception:
+                return False
+            return False
+        state["fail"]["prog"] = harness.ddmin_list(state["fail"]["prog"], fails)
     return {"runs": state["runs"], "fail": state["fail"], "stats": state["stats"], "known": state["known"],
             "shapes": len(state["shapes"]), "nontrivial": sorted(state["nontrivial"]), "sample": state["sample"]}
 
